@@ -196,6 +196,23 @@ CLAIMED["C15"] = {
     "design": "DESIGN.md section 3 C15",
 }
 
+CLAIMED["C13"] = {
+    "text": "Bounded model checking over PROGRAMS: straight-line programs of length 1 (all 21 operations), 2 (quick: 80 "
+            "op-code pairs chosen by VERIF_SEED, thorough: all 441) and 3 (thorough: 300 seeded triples) over a pool of "
+            "FmtStr values built from the whole public operation set; every operand (pool indices, bounds, counts) and "
+            "the observation choice before every step (which memoised views of every pool value are read) is a symbolic "
+            "integer the solver enumerates exhaustively. After the program every value ever created must still have "
+            "exactly the runs it was born with, and its memoised views (s, len, width, str, repr, cells, shared "
+            "attributes) must equal those of a fresh FmtStr built from the same runs. In-place edits (item assignment, "
+            "every mutating dict method of a run's attributes) must raise and change nothing.",
+    "note": "Trusted: CPython, CrossHair + z3 for the exhaustive operand enumeration; once the operands of a path are "
+            "realised the real operations run on concrete values (concrete representative texts with narrow, double-width, "
+            "combining, newline and separator characters; real cwcwidth). Whether each operation's RESULT is right is the "
+            "subject of the other properties; operations that raise on some operands are skipped here.",
+    "technique": TECH + "; programs as symbolic input (op-code tuples x solver-enumerated operands and observation masks)",
+    "design": "DESIGN.md section 3 C13",
+}
+
 NOT_YET = {}
 
 ALL = ["C%02d" % i for i in range(1, 21)]
